@@ -85,6 +85,14 @@ def rules():
           (fn('int n = 3; int a[n]; a[0] = 1;'), True), (fn('const int a[3];'), False), (fn('int n = 3; int a[n] = 5;'), False),
           (fn('int x = a.length;', sig='int a'), False), (fn('int x = a[0];', sig='int a'), False), (fn('int x = s.length + s[0];', sig='string s'), True),
           (fn('int x = [].length;'), True), (fn('int x = [][0];'), False)]
+    # a folded arithmetic constant is byte-coercible only if all its operands were (literals / byte constants), in every consuming position
+    for op in ('K + 1', 'K * 2', '-K', 'K / 1', 'K % 2', 'K - K', '1 + K', '(3 is int) + 1', '+K'):
+        R += [(fn('const int K = 5; byte b = %s;' % op), False), (fn('const int K = 5; return %s;' % op, ret='byte'), False),
+              (fn('const int K = 5; byte[] a = [%s];' % op), False), (fn('const int K = 5; g(%s);' % op, pre='empty g(byte x) { }'), False),
+              (fn('const int K = 5; byte b = 1; b = %s;' % op), False), ('const int K = 5; byte h = %s;\nempty @is_you() { }' % op, False),
+              (fn('const int K = 5; int b = %s;' % op), True), (fn('const int K = 5; byte b = (%s) is byte;' % op), True)]
+    R += [(fn('byte b = 2 + 3;'), True), (fn('const byte C = 5; byte b = C + 1;'), True), (fn('const byte C = 5; byte b = -C + 9;'), True),
+          (fn('const int K = 5; g(K + K);', pre='empty g(byte x) { } empty g(string s) { }'), False)]
     R += [(t, False) for t in frontend.empty_value_programs()]
     return R
 
